@@ -302,6 +302,7 @@ func rulesC12(c *Ctx) {
 	rulesC12Round2(c)
 	c12Round3(c)
 	c12Round4(c)
+	c12Round5(c)
 	depthRule(c, "C12.verify", "a checkpoint is created without error but the restorer rejects every chunk that reaches below that depth (max proof depth exceeded): the checkpoint can never be restored")
 	const rc = "storage/mkvs/checkpoint.restoreChunk"
 	if fn := c.needFn(rule, rc); fn != nil {
